@@ -704,7 +704,7 @@ func main() {
 		guarded(r, c)
 		return
 	}
-	n := r.N(288, 2160)
+	n := r.N(864, 12960)
 	g0, f0 := len(goroutineKeys()), len(httpx.Fds())
 	cycles := 0
 	for i := 0; i < n; i++ {
